@@ -157,6 +157,41 @@ def write_fault_case(args):
         sc.close()
 
 
+def sigpipe_case(args):
+    """a task with a streaming output and a regular output whose reader stops reading early (head): the writer is killed
+    by SIGPIPE, the command has failed (bash: exit status 141), so the regular output must not appear at its final path
+    and the program must not report success"""
+    seed, i = args
+    rng = random.Random(seed * 86028221 + i)
+    sp = t3.Spec(maxtasks=rng.randint(2, 4), bufsize=rng.choice([1, 128]))
+    sp.files["seed.txt"] = "x\n"
+    s = sp.src("src", ["seed.txt"])
+    n = rng.choice([200000, 1000000])
+    k = rng.randint(1, 5)
+    gen = sp.proc(t3.RawProc("gen", "seq 1 %d | tee {o:copy} > {os:stream}" % n, ins=[("a", [(s, "out")])],
+                             outs=[("copy", "{i:a}.copy"), ("stream", "{i:a}.stream")], stream_outs=["stream"]))
+    sp.proc(t3.RawProc("first", rng.choice(["head -n %d {i:in} > {o:out}" % k, "grep -m %d . {i:in} > {o:out}" % k]),
+                       ins=[("in", [(gen, "stream")])], outs=[("out", "{i:in}.first")]))
+    sc = t3.Scratch()
+    try:
+        sc.plant(sp.files)
+        impl = t3.run_impl(sc, sp, timeout=60)
+        problems = []
+        v = impl["fs"].get("seed.txt.copy")
+        if v is not None:
+            full = "".join("%d\n" % j for j in range(1, n + 1))
+            if v[0] != "f" or v[1] != full:
+                problems.append(("partial-output", "the command writing seed.txt.copy was killed by SIGPIPE (its stream reader stopped after %d lines), yet %d bytes (of %d) are at the final path" % (k, len(v[1] or ""), len(full))))
+            else:
+                problems.append(("output-of-failed-command", "the command writing seed.txt.copy was killed by SIGPIPE, yet its output is at the final path"))
+        if impl["rc"] == 0 and impl["returned"]:
+            problems.append(("silent-failure", "a command killed by SIGPIPE (exit status 141) is reported as success: the program exits 0"))
+        return {"spec": sp.text(), "bufsize": sp.bufsize, "problems": problems, "point": None, "rc": impl["rc"], "stderr": impl["stderr"][-200:], "yield": None,
+                "ntasks": 2, "wall": impl["wall"], "kind": "sigpipe-writer"}
+    finally:
+        sc.close()
+
+
 def run(rep, tier, seed):
     proved = vlib.prove(rep, MODULE, THEOREMS)
     ok, msg = vlib.build_ocaml()
@@ -179,10 +214,11 @@ def run(rep, tier, seed):
     results += t3.run_many(kill_case, [(seed, i, 0) for i in range(40 if tier == "quick" else 1500)])
     results += t3.run_many(stale_case, [(seed, i) for i in range(16 if tier == "quick" else 300)])
     results += [r for r in t3.run_many(write_fault_case, [(seed, i) for i in range(8 if tier == "quick" else 120)]) if r]
+    results += t3.run_many(sigpipe_case, [(seed, i) for i in range(4 if tier == "quick" else 40)])
     t3.report_t3(rep, MODULE, proved, results, "T3 crash-point / failure / SIGKILL enumeration")
     rep.cov["evaluations"] = len(results)
     rep.cov["distinct_nontrivial"] = len({(r["spec"], r["point"], r["kind"]) for r in results})
-    rep.cov["rule"] = "fault enumeration on workflows with a two-output task (sub-directory / modified names, additional file), a Go-function or shell task and a two-input join: the process group is killed at every hit of every hook point of Task.Execute, FinalizePaths, Process.Run, createTasks and runProcs (plus a sample of port / slot points); one task fails in each of five ways (shell) or four (Go function); the process group is SIGKILLed at a random instant while commands run; a write(2) of a Go-function task's output is made to fail (ENOSPC / EDQUOT / EIO, injected with strace); histories run / delete an output but keep its audit file / re-run with a command that fails after a partial write / run again as it is; after each, every file at a declared output path must be the complete output of a successful command of its task, and nothing else may have appeared outside the temp dirs; every (workflow, point, kind) is distinct and non-trivial"
+    rep.cov["rule"] = "fault enumeration on workflows with a two-output task (sub-directory / modified names, additional file), a Go-function or shell task and a two-input join: the process group is killed at every hit of every hook point of Task.Execute, FinalizePaths, Process.Run, createTasks and runProcs (plus a sample of port / slot points); one task fails in each of five ways (shell) or four (Go function); the process group is SIGKILLed at a random instant while commands run; a write(2) of a Go-function task's output is made to fail (ENOSPC / EDQUOT / EIO, injected with strace); a writer with a streaming and a regular output is killed by SIGPIPE because its reader stops early; histories run / delete an output but keep its audit file / re-run with a command that fails after a partial write / run again as it is; after each, every file at a declared output path must be the complete output of a successful command of its task, and nothing else may have appeared outside the temp dirs; every (workflow, point, kind) is distinct and non-trivial"
     rep.cov["samples"] = [{"point": results[5]["point"], "rc": results[5]["rc"]}, results[0]["spec"]]
     kinds = {}
     for r in results:
